@@ -253,6 +253,31 @@ def oracle(ctx):
                     tol = 1e-5 if meth in ("broyden1", "newton") else 1e-3
                     if float(grad.norm()) > tol:
                         ctx.fail("oracle", "min:%s:gradient-not-vanishing" % meth, info, float(grad.norm()), "< %g" % tol)
+    # far initial guesses on a globally contractive map: the stopping test must be the ABSOLUTE f_tol the caller asked
+    # for, not a tolerance relative to the first residual (seeded defect C03/2: arguments of the termination object swapped)
+    gen = torch.Generator().manual_seed(ctx.seed + 5)
+    nfar = 12
+    Af = torch.randn(nfar, nfar, dtype=DT, generator=gen)
+    Af = 0.9 * Af / torch.linalg.matrix_norm(Af, 2)
+    bf = torch.randn(nfar, dtype=DT, generator=gen)
+    fmap = lambda y, A, b: y @ A.T + b + 0.05 * torch.sin(y)
+    for scale in (1.0, 1e2, 1e4):
+        for f_tol in (1e-9, 1e-10):
+            y0f = scale * torch.randn(nfar, dtype=DT, generator=gen)
+            for fn_name, meth in (("equilibrium", "anderson_acc"), ("equilibrium", "broyden1"), ("rootfinder", "broyden1"), ("rootfinder", "linearmixing")):
+                try:
+                    if fn_name == "equilibrium":
+                        y, warned = run(lambda: equilibrium(fmap, y0f, params=(Af, bf), method=meth, f_tol=f_tol))
+                    else:
+                        y, warned = run(lambda: rootfinder(lambda y, A, b: y - fmap(y, A, b), y0f, params=(Af, bf), method=meth, f_tol=f_tol))
+                except Exception as e:
+                    ctx.fail("oracle", "far-guess:%s:%s:exception" % (fn_name, meth), {"scale": scale, "f_tol": f_tol}, repr(e)[:200], "a point or a warning")
+                    continue
+                ctx.count(("far-guess", fn_name, meth, scale, f_tol))
+                res = float((fmap(y, Af, bf) - y).norm())
+                if not warned and not res < f_tol:
+                    ctx.fail("oracle", "%s:%s:silent-but-not-converged:far-initial-guess" % (fn_name, meth),
+                             {"initial_guess_scale": scale, "f_tol": f_tol, "n": nfar}, res, "< %g" % f_tol)
     # early exits
     one = torch.tensor([1.0, -2.0], dtype=DT)
     y, warned = run(lambda: rootfinder(lambda y: y - one, one.clone()))
